@@ -97,6 +97,19 @@ CHECKS = {
    text="Each configuration (9 classes x spacing x origin x 3 BC set-ups x 6 term subsets incl. TVD x implicit/explicit, 3 steps) is re-run with every input rescaled by its physical dimension; for power-of-two factors the solution divided by K must agree to 4 ulp, for decimal factors to 64*eps*cond. Homogeneity T(lambda e_f)=lambda T(e_f) (exact) and additivity T(e_f+e_g)=T(e_f)+T(e_g) are checked for every unit face coefficient and every pair on every grid instance of the linearity bound (upwind at fixed upwind direction). Exhaustive within the alphabets.",
    note="Scale factors over +-6 decades represented by {2^-20,2^-7,2^3,2^20} and {1e-6,1e-3,1e3,1e6}; quick uses 14 triples, thorough all 64 + 10.",
    ref="DESIGN.md 4/C17"),
+
+ "C07": dict(
+   engine="B-cfgsolve",
+   technique="configuration lattice with deviation bound over (BC set-up, D pattern, sink, dt, +-every element of a basis of the admissible discretely solenoidal velocities); per configuration the complete solution operator is obtained from the library-assembled system and checked for sign and row sums",
+   text="Because the update is linear, the maximum principle for every initial field and every Dirichlet datum is equivalent to entrywise non-negativity and row sums <= 1 of the solution operator; that operator is computed for every configuration within the deviation bound (4 BC set-ups incl. periodic and walls, 5 diffusivity patterns incl. a zero face and 10^6 contrast, sink on/off, dt over 8 decades, zero velocity and +-each unit stream function / through-flow admissible for the set-up) from the system captured during a real solvePDE call whose own answer is cross-checked; a real two-step run from a unit field confirms the bound dynamically. Exhaustive within the deviation bound.",
+   note="cond*eps > 1e-4 configurations are counted as preconditions_failed; the dense inverse of the captured matrix supplies all columns at once (SuperLU's answer for a generic field is compared with it in each configuration); velocity magnitudes are O(1).",
+   ref="DESIGN.md 4/C07"),
+ "C08": dict(
+   engine="B-cfgsolve",
+   technique="metamorphic enumeration: every transformation (6 embedding pairs x position x N_red x spacing x closure x u_red; all axis permutations; every mirror; every cyclic shift) x 4 BC kind vectors x 7 term subsets (3 limiters), both problems solved by the real library for 2 steps",
+   text="Each transformation of the property is instantiated on every reduced configuration and original and transformed problems are solved with the real library; the solution on the higher-dimensional grid must be constant along the redundant axis and equal to the reduced solution including ghost layers, permuted/mirrored/shifted problems must give permuted/mirrored/shifted solutions, to 64*eps*cond. Exhaustive over the transformation and configuration alphabets.",
+   note="Reduced shapes (3,) and (2,3); N_red<=3; spherical 3-D -> 1-D not demanded; shifts with upwind/TVD are a recorded finding (periodic seam).",
+   ref="DESIGN.md 4/C08"),
 }
 NOT_YET = {}
 
